@@ -349,7 +349,13 @@ static void *free_peer (void *arg)
   if (env_wanted (0)) env_perform (0);
   if (env_wanted (1)) env_perform (1);
   if (env_wanted (2)) env_perform (2);
-  { int k, spins; for (k = 4; k < NENV; k++) if (env_wanted (k)) { for (spins = 0; spins < 2000 && !__atomic_load_n (&pc[k - 1].serial, __ATOMIC_SEQ_CST); spins++) usleep (100); if (pc[k - 1].serial) env_perform (k); } }
+  { int k, spins; for (k = 4; k < NENV; k++) if (env_wanted (k))
+      {
+        /* only atomic reads of what the calling thread publishes (a plain read after a wait that timed out would race with it) */
+        dbus_uint32_t sv = 0;
+        for (spins = 0; spins < 20000 && !(sv = __atomic_load_n (&pc[k - 1].serial, __ATOMIC_SEQ_CST)); spins++) usleep (100);
+        if (sv) env_perform (k);
+      } }
   if (env_wanted (3)) { usleep (2000); env_perform (3); }
   return NULL;
 }
